@@ -44,6 +44,14 @@ func checkC03(c *Ctx) {
 	}
 	r.Floor("TRUTHY", 18)
 	c03Vars(c)
+	// premise shared with C13/C15: a run starts with an empty variable stack. A pooled task that kept its root frame
+	// would let a name resolve to a previous run's variable instead of the point's key.
+	for _, pp := range []string{pRT, pRT2} {
+		if gc := t.Func(pp, "GetContext"); gc != nil {
+			r.Ob("VARS", t.SSA[pp].Pkg.Name()+".GetContext starts every task with a newly allocated root frame", t.Pos(gc.Pos()), freshRootFrame(gc),
+				"stackHeader and stackCur are assigned a new Stack unconditionally: `a name without a variable reads the point` presupposes that no variable survives from an earlier run of the pooled task")
+		}
+	}
 }
 
 func evalFnsOf(t *Tree, pp string) map[*ssa.Function]bool {
